@@ -1,5 +1,20 @@
 """C18 check configuration (data only)."""
+import importlib.util
+import os
+
 from propbase import KERNEL, HARNESS
+
+_root = os.path.dirname(os.path.dirname(os.path.abspath(__file__)))
+
+
+def _load(name, path):
+    spec = importlib.util.spec_from_file_location(name, os.path.join(_root, "translate", path))
+    mod = importlib.util.module_from_spec(spec)
+    spec.loader.exec_module(mod)
+    return mod
+
+
+_keys = _load("translate_c18keys", "c18keys.py")
 
 
 def lowerspec(ctx):
@@ -13,6 +28,7 @@ def lowerspec(ctx):
 
 
 PROP = {'gen': [],
+ 'pre_coq': [_keys.pre_coq],
  'coq_props': ['theories/Props/C18.vo'],
  'coq_corr': ['theories/Corr/C18Corr.vo'],
  'props_file': 'theories/Props/C18.v',
@@ -23,16 +39,19 @@ PROP = {'gen': [],
  'level_text': 'Coq theorems over an executable model of KeyMap (trie of ordered association lists = BTreeMap) and of the key/chord '
                'parsers and printers. For every map built by any combination of new / register / register_override / clear and every '
                'non-empty chord, lookup equals lookup in the dictionary of chords built by reg c v d = (c,v) :: [entries of d unrelated '
-               'to c]; Success / Continue / Failure mean bound / proper prefix of a bound chord / neither; bound = registered and no '
-               'related chord registered since; for_each lists exactly the bound chords, each once. Stateful matcher (same maps): it '
-               'refines to the dictionary-level matcher on every key sequence; from idle a bound chord fires exactly at its last key; '
-               'it fires only bound chords; after an unbound key typed from idle the next chord fires. From an arbitrary pending state '
-               'the last clause is proved ONLY when the unbound key does not itself continue the pending chord (pending ++ [u] is not a '
-               'proper prefix of a bound chord): without that side condition the clause of the property text is FALSE of the code '
-               '(C18_matcher_never_prevents_refuted: bound a u c and c, typing a u c fires the three-key chord) and no repair exists; '
-               'that class is a known finding. The parsers never panic and whatever they accept prints to a string that parses back to '
-               'the same value. Model tied to the code by a differential run; the predicate evaluates the English clauses (fires at the '
-               'last key from idle / never prevents / only bound chords fire) directly on the stream of handle() answers.',
+               'to c] (spec_override for an override); Success / Continue / Failure mean bound / proper prefix of a bound chord / '
+               'neither; for_each lists exactly the bound chords, each once. For plain registration histories the dictionary is '
+               'characterised as "registered and no related chord registered since" (a lemma about the specification only). Stateful '
+               'matcher (same maps): from idle a bound chord fires exactly at its last key; it fires only bound chords; after an '
+               'unbound key typed from idle the next chord fires. From an arbitrary pending state the last clause is proved ONLY when '
+               'the unbound key does not itself continue the pending chord (pending ++ [u] is not a proper prefix of a bound chord): '
+               'without that side condition the clause of the property text is FALSE of the code '
+               '(C18_matcher_never_prevents_refuted) and of every matcher that satisfies the first clause (lemma '
+               'C18_clauses_incompatible); that class is a known finding. The parsers never panic and whatever they accept prints to a '
+               'string that parses back to the same value. The variant order behind the derived Ord of Key and the modifier masks are '
+               're-extracted from src/keys.rs on every run (C18_key_order_is_source_order). Specification-side facts are Lemmas, not '
+               'counted as obligations. Model tied to the code by a differential run; the predicate evaluates the English clauses '
+               'directly on the stream of handle() answers; idle / pending / the known class are decided on the dictionary side.',
  'level_note': 'Trusted: Coq kernel + vm_compute; hand-written models validated by the correspondence run; str::to_lowercase is an '
                'oracle: the parser theorems hold for every function satisfying lower_spec (identity on ASCII strings without capitals; '
                'only strings beginning with f/F lower-case to something beginning with f), and each case checks these two facts on '
